@@ -129,12 +129,13 @@ func manufacturedEOF(c *core.Ctx, rule string, pkgs []string, floor int) {
 		g, ok := u.X.(*ssa.Global)
 		return ok && g.Object() == eofVar
 	}
-	for _, f := range c.RepoFunctions() {
-		if core.IsCLIOrSample(core.FuncPkg(f)) || !inPkgs(core.FuncPkg(f), pkgs) {
-			continue
+	evMemo := map[*ssa.Function]map[*ssa.BasicBlock]string{}
+	evidenceOf := func(f *ssa.Function) map[*ssa.BasicBlock]string {
+		if m, ok := evMemo[f]; ok {
+			return m
 		}
-		// blocks that carry exhaustion evidence: successors of tests described above
 		evidence := map[*ssa.BasicBlock]string{}
+		// blocks that carry exhaustion evidence: successors of tests described above
 		for _, b := range f.Blocks {
 			if len(b.Instrs) == 0 {
 				continue
@@ -203,6 +204,14 @@ func manufacturedEOF(c *core.Ctx, rule string, pkgs []string, floor int) {
 				}
 			}
 		}
+		evMemo[f] = evidence
+		return evidence
+	}
+	for _, f := range c.RepoFunctions() {
+		if core.IsCLIOrSample(core.FuncPkg(f)) || !inPkgs(core.FuncPkg(f), pkgs) {
+			continue
+		}
+		evidence := evidenceOf(f)
 		dominatedByEvidence := func(b *ssa.BasicBlock) (string, bool) {
 			for e, why := range evidence {
 				if e == b || e.Dominates(b) {
@@ -241,6 +250,8 @@ func manufacturedEOF(c *core.Ctx, rule string, pkgs []string, floor int) {
 						c.OK(rule, key, core.InstrPos(r), "on an edge where the source is known to be exhausted ("+why+")")
 					} else if dominatedByEvidenceAny(useBlk, evidence) {
 						c.OK(rule, key, core.InstrPos(r), "every path to this use passes an exhaustion test")
+					} else if why, ok := callersEstablish(c, f, evidenceOf, 0); ok {
+						c.OK(rule, key, core.InstrPos(r), "unexported helper: every call site is on an edge where the source is known to be exhausted ("+why+")")
 					} else {
 						c.Bad(rule, key, core.InstrPos(r), "io.EOF is produced on a path that has not seen the source report end of input (no `err == io.EOF`, no failed more-input predicate, no nil unit from the source dominates it): the stream can end while input remains")
 					}
@@ -797,6 +808,171 @@ func init() {
 	wrapRun("C07", func(c *core.Ctx) {
 		if c.CountRule("R07j") == 0 {
 			inputRewriters(c, "R07j", []string{"extensions/omniv21/fileformat/edi"})
+		}
+	})
+}
+
+// callersEstablish: f is an unexported function or method all of whose call sites are static calls inside the
+// repository, each dominated by exhaustion evidence in its caller (or, recursively, in the caller's callers).
+func callersEstablish(c *core.Ctx, f *ssa.Function, evidenceOf func(*ssa.Function) map[*ssa.BasicBlock]string, depth int) (string, bool) {
+	if depth > 2 {
+		return "", false
+	}
+	if p := f.Parent(); p != nil {
+		return "", false
+	}
+	if o := f.Object(); o == nil || o.Exported() {
+		return "", false
+	}
+	n := c.CallGraph().Nodes[f]
+	if n == nil || len(n.In) == 0 {
+		return "", false
+	}
+	why := ""
+	for _, e := range n.In {
+		if e.Site == nil || e.Site.Common().StaticCallee() != f {
+			return "", false
+		}
+		caller := e.Caller.Func
+		ev := evidenceOf(caller)
+		ok := false
+		for b, w := range ev {
+			if b == e.Site.Block() || b.Dominates(e.Site.Block()) {
+				ok, why = true, w+" in "+core.FuncKey(caller)
+			}
+		}
+		if !ok && dominatedByEvidenceAny(e.Site.Block(), ev) {
+			ok, why = true, "exhaustion test on every path in "+core.FuncKey(caller)
+		}
+		if !ok {
+			if w, ok2 := callersEstablish(c, caller, evidenceOf, depth+1); ok2 {
+				ok, why = true, w
+			}
+		}
+		if !ok {
+			return "", false
+		}
+	}
+	return why, true
+}
+
+// ---------------------------------------------------------------- tokenisation is controlled by configuration only (C07)
+
+func controlDeps(fn *ssa.Function) *c04CD {
+	return (&c04Env{cdMemo: map[*ssa.Function]*c04CD{}}).cd(fn)
+}
+
+// splitsUnderConfigOnly: whether a level of splitting (elements, repetitions, components) is applied, and whether a
+// piece is recorded, may depend on the configuration (is this delimiter declared?) and on how many pieces the previous
+// level produced — never on what the bytes of the token are. Seed C07-12 skipped the repetition split for an element
+// equal to the repetition delimiter ("ISA11 literal"): an unescaped delimiter was no longer a split point.
+func splitsUnderConfigOnly(c *core.Ctx, rule string, pkg string) {
+	c.SSA()
+	isBytes := func(t types.Type) bool {
+		sl, ok := t.Underlying().(*types.Slice)
+		if !ok {
+			return false
+		}
+		b, ok := sl.Elem().Underlying().(*types.Basic)
+		return ok && b.Kind() == types.Byte
+	}
+	isBytesOfBytes := func(t types.Type) bool {
+		sl, ok := t.Underlying().(*types.Slice)
+		return ok && isBytes(sl.Elem())
+	}
+	n := 0
+	for _, f := range c.RepoFunctions() {
+		if !inPkgs(core.FuncPkg(f), []string{pkg}) {
+			continue
+		}
+		var sites []ssa.CallInstruction
+		for _, ci := range core.Calls(f) {
+			if o := core.CalleeObj(ci); o != nil && o.Pkg() != nil && o.Pkg().Path() == "github.com/jf-tech/go-corelib/strs" && strings.HasPrefix(o.Name(), "ByteSplit") {
+				sites = append(sites, ci)
+			}
+		}
+		if len(sites) == 0 {
+			continue
+		}
+		// content = derived from a []byte parameter of the function
+		var content func(v ssa.Value, seen map[ssa.Value]bool, d int) bool
+		content = func(v ssa.Value, seen map[ssa.Value]bool, d int) bool {
+			if v == nil || seen[v] || d > 20 {
+				return false
+			}
+			seen[v] = true
+			switch x := v.(type) {
+			case *ssa.Parameter:
+				return isBytes(x.Type()) || isBytesOfBytes(x.Type())
+			case *ssa.Const, *ssa.Global, *ssa.FreeVar, *ssa.Function, *ssa.Builtin:
+				return false
+			case *ssa.Call:
+				if bi, ok := x.Call.Value.(*ssa.Builtin); ok && (bi.Name() == "len" || bi.Name() == "cap") && len(x.Call.Args) == 1 && isBytesOfBytes(x.Call.Args[0].Type()) {
+					return false // number of pieces: structure, not content
+				}
+				for _, a := range x.Call.Args {
+					if content(a, seen, d+1) {
+						return true
+					}
+				}
+				return false
+			case *ssa.UnOp:
+				if x.Op == token.MUL {
+					if a, ok := x.X.(*ssa.Alloc); ok {
+						for _, r := range core.Referrers(a) {
+							if st, ok := r.(*ssa.Store); ok && st.Addr == a && content(st.Val, seen, d+1) {
+								return true
+							}
+						}
+						return false
+					}
+					if ia, ok := x.X.(*ssa.IndexAddr); ok {
+						return content(ia.X, seen, d+1)
+					}
+					return false // field loads: configuration / reader state
+				}
+				return content(x.X, seen, d+1)
+			}
+			if in, ok := v.(ssa.Instruction); ok {
+				for _, op := range in.Operands(nil) {
+					if *op != nil && content(*op, seen, d+1) {
+						return true
+					}
+				}
+			}
+			return false
+		}
+		cd := controlDeps(f)
+		for _, ci := range sites {
+			n++
+			key := core.FuncKey(f) + " split is controlled by configuration only"
+			bad := token.NoPos
+			for _, ed := range cd.controlling(ci.Block()) {
+				ifi := ed.ifInstr()
+				if ifi == nil {
+					continue
+				}
+				if content(ifi.Cond, map[ssa.Value]bool{}, 0) {
+					bad = core.InstrPos(ifi)
+				}
+			}
+			if bad.IsValid() {
+				c.Bad(rule, key, bad, "whether this level of splitting is applied depends on a condition over the bytes of the token itself: an unescaped delimiter is then a split point for some contents and not for others")
+			} else {
+				c.OK(rule, key, core.InstrPos(ci), "controlled by declared delimiters and piece counts only")
+			}
+		}
+	}
+	if n == 0 {
+		c.Unresolved(rule, "split calls", "no strs.ByteSplit* call in package "+pkg)
+	}
+	c.Floor(rule, 3, "element, repetition and component splits")
+}
+
+func init() {
+	wrapRun("C07", func(c *core.Ctx) {
+		if c.CountRule("R07h") == 0 {
+			splitsUnderConfigOnly(c, "R07h", "extensions/omniv21/fileformat/edi")
 		}
 	})
 }
